@@ -8,6 +8,7 @@ mod verif_kani_month {
 //@@COMMON@@
     use xs::*;
 
+    // fns: Month::succ, Month::pred, Month::number_from_month
     #[kani::proof]
     fn vk_month_cycle() {
         let n: u8 = kani::any();
@@ -20,6 +21,7 @@ mod verif_kani_month {
         assert!(m.number_from_month() == n as u32, "number_from_month");
     }
 
+    // fns: TryFrom<u8> for Month
     #[kani::proof]
     fn vk_month_try_from_u8() {
         let v: u8 = kani::any();
@@ -30,6 +32,7 @@ mod verif_kani_month {
         }
     }
 
+    // fns: Month::from_u64
     #[kani::proof]
     fn vk_month_from_u64() {
         let u: u64 = kani::any();
@@ -37,6 +40,7 @@ mod verif_kani_month {
         match Month::from_u64(u) { Some(m) => assert!(u >= 1 && u <= 12 && mon_idx(m) as u64 == u, "from_u64 accepts only 1..=12"), None => assert!(u == 0 || u > 12, "from_u64 rejects only outside 1..=12") }
     }
 
+    // fns: Month::from_i64
     #[kani::proof]
     fn vk_month_from_i64() {
         let i: i64 = kani::any();
@@ -44,6 +48,7 @@ mod verif_kani_month {
         match Month::from_i64(i) { Some(m) => assert!(i >= 1 && i <= 12 && mon_idx(m) as i64 == i, "from_i64 accepts only 1..=12"), None => assert!(i < 1 || i > 12, "from_i64 rejects only outside 1..=12") }
     }
 
+    // fns: Month::from_u32 + provided FromPrimitive methods
     #[kani::proof]
     fn vk_month_from_primitive_provided() {
         let a: u32 = kani::any(); let b: i32 = kani::any(); let c: u8 = kani::any(); let d: i8 = kani::any();
@@ -58,6 +63,7 @@ mod verif_kani_month {
         assert!(Month::from_isize(h).is_some() == (h >= 1 && h <= 12));
     }
 
+    // fns: Months::new, Months::as_u32, derived Ord/Eq for Months
     #[kani::proof]
     fn vk_months_newtype() {
         let n: u32 = kani::any();
@@ -67,6 +73,7 @@ mod verif_kani_month {
     }
 
     // C08: days in month agree with the calendar; None exactly when the year is outside NaiveDate's range
+    // fns: Month::num_days
     #[kani::proof]
     fn vk_month_num_days() {
         let n: u8 = kani::any();
@@ -84,6 +91,7 @@ mod verif_kani_month {
     }
 
     // bounded: every ASCII string of at most 10 bytes
+    // fns: FromStr for Month (bounded)
     #[kani::proof]
     #[kani::unwind(14)]
     fn vk_month_from_str_bounded10() {
@@ -110,6 +118,7 @@ mod verif_kani_month {
     }
 
     // name() is the English name and parses back (12 fixed strings: complete with unwinding assertions)
+    // fns: Month::name, FromStr for Month on the 12 names
     #[kani::proof]
     #[kani::unwind(14)]
     fn vk_month_name_roundtrip() {
